@@ -560,6 +560,8 @@ func c18R5(c *Ctx) {
 	p := c.P
 	c.Rule("C18.R5", "completeness after defaulting: when some entry lacks vSwitches or security groups the cluster defaults are applied to EVERY such entry (or the request is denied) before the list is emitted")
 	fn := p.Func(webhookPkg, "podWebhook")
+	loader := p.Func("types/daemon", "ConfigFromConfigMap")
+	p.Func("types/daemon", "Config.GetSecurityGroups") // anchor: the accessor stays a call in the loader
 	if fn == nil {
 		return
 	}
@@ -647,40 +649,56 @@ func c18R5(c *Ctx) {
 		}
 		return true
 	})
-	loader := p.Func("types/daemon", "ConfigFromConfigMap")
-	p.Func("types/daemon", "Config.GetSecurityGroups") // anchor: the accessor stays a call in the loader
 	if getter == nil || loader == nil {
 		c.Undec("C18.R5", "the loader bounds the defaulted security groups", p.Pos(loop), fn.Key(), "SecurityGroupIDs = cfg.<getter>() and types/daemon.ConfigFromConfigMap", "getter or loader not found")
 		return
 	}
 	linfo := loader.Info()
-	var bounded ast.Expr
+	// the test `len(cfg.<getter>()) > 10` (through temporaries), in either operand order
+	var test *ast.BinaryExpr
 	ast.Inspect(loader.Decl.Body, func(nd ast.Node) bool {
 		be, ok := nd.(*ast.BinaryExpr)
 		if !ok {
 			return true
 		}
-		for _, side := range []ast.Expr{be.X, be.Y} {
-			lc, ok := isBuiltinCall(linfo, side, "len")
+		isLenOfGetter := func(x ast.Expr) bool {
+			lc, ok := isBuiltinCall(linfo, derefExpr(loader, x), "len")
 			if !ok {
-				continue
+				return false
 			}
-			if call, ok := ast.Unparen(derefExpr(loader, lc.Args[0])).(*ast.CallExpr); ok && Callee(linfo, call) == getter {
-				bounded = lc.Args[0]
-			}
+			call, ok := ast.Unparen(derefExpr(loader, lc.Args[0])).(*ast.CallExpr)
+			return ok && Callee(linfo, call) == getter
+		}
+		kx, okx := constInt(linfo, be.X)
+		ky, oky := constInt(linfo, be.Y)
+		switch {
+		case isLenOfGetter(be.X) && oky && (be.Op == token.GTR && ky <= 10 || be.Op == token.GEQ && ky <= 11):
+			test = be
+		case isLenOfGetter(be.Y) && okx && (be.Op == token.LSS && kx <= 10 || be.Op == token.LEQ && kx <= 11):
+			test = be
 		}
 		return true
 	})
-	if bounded == nil {
-		c.Bad("C18.R5", "the loader bounds the defaulted security groups", p.Pos(loader.Decl), loader.Key(), "len(cfg."+getter.Name()+"()) is tested in ConfigFromConfigMap", "no length test on the value of "+getter.Name()+"() — the webhook writes that value into the entry unchecked")
+	if test == nil {
+		c.Bad("C18.R5", "the loader bounds the defaulted security groups", p.Pos(loader.Decl), loader.Key(), "len(cfg."+getter.Name()+"()) > 10 is tested in ConfigFromConfigMap", "no test of the length of "+getter.Name()+"() against ten — the webhook writes that value into the entry unchecked")
 		return
 	}
 	lsig := loader.Obj.Type().(*types.Signature)
+	failing := func(ret *ast.ReturnStmt) bool {
+		ok, known := isSuccessReturn(linfo, lsig, ret)
+		return known && !ok
+	}
+	_ = failing
+	nret := 0
 	for _, r := range declReturns(loader.Decl.Body) {
 		if ok, known := isSuccessReturn(linfo, lsig, r); ok && known {
-			c.Require("C18.R5", "ConfigFromConfigMap succeeds only with at most ten defaulted security groups", loader, r, "len("+exprString(bounded)+") <= 10", nil)
+			nret++
+			c.RequireF("C18.R5", "ConfigFromConfigMap succeeds only with at most ten defaulted security groups", loader, r, "!("+exprString(test)+")", func(e *FactEngine) (*Formula, error) {
+				return mkNot(e.Cond(test)), nil
+			})
 		}
 	}
+	c.Floor("C18.R5", "success returns of ConfigFromConfigMap", 1, nret)
 }
 
 func c18R6(c *Ctx) {
